@@ -323,6 +323,7 @@ pub struct World {
     pub live_trace: bool,
     pub matrix: bool,
     pub prop: String,
+    pub signal: Option<calloop::LoopSignal>,
 }
 
 thread_local! {
@@ -392,6 +393,7 @@ impl World {
             idle_self_cancel: false,
             matrix: false,
             prop: String::new(),
+            signal: None,
             live_trace: std::env::var_os("CVERIF_LIVE_TRACE").is_some(),
         }
     }
